@@ -80,8 +80,10 @@ pub fn migrate(from: &Path, mut to: Options, overwrite: bool, force_migrate: &[u
 			c,
 			|IterState { item_index: index, key, rc, mut value, .. }| {
 				//TODO: more efficient ref migration
-				for _ in 0..rc {
-					let value = std::mem::take(&mut value);
+				for n in 0..rc {
+					// Every `Set` carries the value: the destination may not be reference
+					// counted, in which case the last one written is the one that stays.
+					let value = if n + 1 == rc { std::mem::take(&mut value) } else { value.clone() };
 					commit
 						.indexed
 						.entry(c)
